@@ -292,6 +292,7 @@ def analyse_structs(ses, rep, fs, sigs):
                 base = ("value", cur)
                 break
             oid0 = f"child/{fs}/{f.name}/path{pi}"
+            byoid_l = {t[3].oid: t[3] for t in o.trace if t[0] == "havoc" and isinstance(t[3], Lazy)}
             acc = {}
             for t in o.trace:
                 if t[0] in ("havoc", "effect"):
@@ -362,6 +363,26 @@ def analyse_structs(ses, rep, fs, sigs):
                 if r == "sat":
                     flagged.append((oid, f"{f.name}: the `{slot}` child of the returned {rt} does not come from the input's `{slot}`", "child",
                                     {"function": f.name, "type": rt, "slot": slot}))
+                # a child LIST keeps its elements in place: between the input's list and the slot no adaptor that drops, reorders or compacts
+                # elements (`.flatten()` over Option elements shifts the later ones to the left: `local a, b <const>` -> `local a <const>, b`)
+                if src is not None and isinstance(src, Lazy):
+                    def over_the_list(o_, depth=0):
+                        """is call result o_ an iterator chain over the child list itself (not over something read out of an element)?"""
+                        if o_ == src.oid:
+                            return True
+                        hc = ex.havoc_calls.get(o_)
+                        if hc is None or depth > 10 or hc[0].split("::")[-1] not in (LOSSY_ADAPTORS | ITER_CHAIN):
+                            return False
+                        a0 = ex.havoc_snap.get(o_, hc[1])
+                        a0 = deref_val(ex, o.state, a0[0]) if a0 else None
+                        return isinstance(a0, Lazy) and over_the_list(a0.oid, depth + 1)
+                    lossy = sorted({ex.havoc_calls[o_][0].split("::")[-1] for o_ in pv if o_ in ex.havoc_calls
+                                    and ex.havoc_calls[o_][0].split("::")[-1] in LOSSY_ADAPTORS and over_the_list(o_)})
+                    if lossy:
+                        r, m = ses.obligation(oid + "/elements-stay-in-place", list(o.pc), z3.BoolVal(True), "no filter / flatten / skip / take / rev / sort between the input's list and the slot")
+                        if r == "sat":
+                            flagged.append((oid + "/elements-stay-in-place", f"{f.name}: the `{slot}` list of the returned {rt} goes through {lossy}: elements can be dropped or "
+                                            "shifted against their siblings", "child", {"function": f.name, "type": rt, "slot": slot}))
     rep.bounds[f"struct_and_enum_formatters_{fs}"] = n_fn
     rep.bounds[f"child_slots_{fs}"] = n_slots
     rep.extra.setdefault("not_encoded", []).extend(not_encoded)
@@ -370,6 +391,10 @@ def analyse_structs(ses, rep, fs, sigs):
     return flagged
 
 
+LOSSY_ADAPTORS = {"filter", "filter_map", "flatten", "flat_map", "skip", "take", "rev", "step_by", "skip_while", "take_while", "dedup", "sort", "sort_by", "sort_by_key",
+                  "retain", "truncate", "pop", "remove", "swap_remove", "nth", "last"}
+ITER_CHAIN = {"iter", "into_iter", "pairs", "into_pairs", "map", "cloned", "copied", "enumerate", "zip", "peekable", "by_ref", "deref", "as_ref", "to_owned", "clone",
+              "collect", "iter_mut", "borrow"}
 KIND_ENUMS = ("Stmt", "LastStmt", "Expression", "Prefix", "Suffix", "Call", "Index", "Var", "Field", "FunctionArgs", "UnOp", "BinOp", "TypeInfo",
               "IndexedTypeInfo", "TypeFieldKey", "GenericParameterInfo", "CompoundOp", "Parameter", "InterpolatedStringSegment", "LuauAttribute")
 
@@ -806,6 +831,7 @@ EXTRA = {
     "luau-ifexpr": ("Luau", "local r = if c1 then v1 elseif c2 then v2 elseif c3 then v3 else v4\n"),
     "luau-compound": ("Luau", "target_a += value_a\ntarget_b.field ..= value_b\n"),
     "lua54-attribs": ("Lua54", "local first <const>, second <close> = value_one, value_two\n"),
+    "lua54-attribs-gap": ("Lua54", "local handle, guard <close> = io.open(path), make_guard()\nlocal count, limit <const> = 0, 10\nlocal a <const>, b, c <close> = 1, 2, 3\n"),
     "lua52-goto": ("Lua52", "goto label_one\n::label_one::\n::label_two::\ngoto label_two\n"),
     "wide-numeric-for": ("Lua51", "for some_very_long_index_variable_name = some_very_long_start_expression_name, some_very_long_end_expression_name, some_very_long_step_name do\n\tprint(1)\nend\n"),
     "wide-generic-for": ("Lua51", "for some_very_long_key_name, some_very_long_value_name in some_very_long_iterator_function_name(some_very_long_argument_name), second_expression do\n\tprint(1)\nend\n"),
